@@ -35,22 +35,22 @@ import (
 
 // LogEvent is the protocol-independent event.
 type LogEvent struct {
-	Vid    int64       `json:"vid"`
-	Fields model.Node  `json:"fields"` // object: the attribute / leaf map
-	Msg    string      `json:"msg"`    // body / line / message
-	TimeNs uint64      `json:"timeNs"` // 0 = the event carries no time
-	Res    []model.Field `json:"res"`  // resource attributes (flat leaves)
+	Vid          int64         `json:"vid"`
+	Fields       model.Node    `json:"fields"` // object: the attribute / leaf map
+	Msg          string        `json:"msg"`    // body / line / message
+	TimeNs       uint64        `json:"timeNs"` // 0 = the event carries no time
+	Res          []model.Field `json:"res"`    // resource attributes (flat leaves)
 	ScopeName    string        `json:"scopeName"`
 	ScopeVersion string        `json:"scopeVersion"`
 	ScopeAttrs   []model.Field `json:"scopeAttrs"`
-	TraceID  string `json:"traceId"` // hex, 32 chars or ""
-	SpanID   string `json:"spanId"`  // hex, 16 chars or ""
-	ParentID string `json:"parentId"`
-	SpanName string `json:"spanName"`
-	Service  string `json:"service"`
-	DurNs    uint64 `json:"durNs"`
-	SevText  string `json:"sevText"`
-	SevNum   int32  `json:"sevNum"`
+	TraceID      string        `json:"traceId"` // hex, 32 chars or ""
+	SpanID       string        `json:"spanId"`  // hex, 16 chars or ""
+	ParentID     string        `json:"parentId"`
+	SpanName     string        `json:"spanName"`
+	Service      string        `json:"service"`
+	DurNs        uint64        `json:"durNs"`
+	SevText      string        `json:"sevText"`
+	SevNum       int32         `json:"sevNum"`
 	// ObservedNs is OTLP's observed_time_unix_nano (collector-side time, not the event time).
 	ObservedNs uint64 `json:"observedNs"`
 }
@@ -58,8 +58,8 @@ type LogEvent struct {
 func (e *LogEvent) TimeMs() uint64 { return e.TimeNs / 1_000_000 }
 
 func objNode(fields []model.Field) model.Node { return model.Node{Obj: fields, IsObj: true} }
-func strLeaf(s string) model.Node              { return model.LeafNode(model.Str(s)) }
-func intLeaf(i int64) model.Node               { return model.LeafNode(model.Int(i)) }
+func strLeaf(s string) model.Node             { return model.LeafNode(model.Str(s)) }
+func intLeaf(i int64) model.Node              { return model.LeafNode(model.Int(i)) }
 
 // ---- time units ---------------------------------------------------------------------------------
 
